@@ -5,3 +5,4 @@ import CnvVerif.Props.C06
 import CnvVerif.Props.C07
 import CnvVerif.Props.C13
 import CnvVerif.Props.C14
+import CnvVerif.Props.C20
